@@ -298,6 +298,56 @@ theorem flush_empties_buffer_unless_bulk_raised (rnd : Nat → Rat) (s : Store) 
       (flushStep rnd s refresh bulk refr).1.buffer = s.buffer ∧ (flushStep rnd s refresh bulk refr).1.acked = s.acked) :=
   flushStep_buffer rnd s refresh bulk refr
 
+/-! ### one level below: the Rally client turns HTTP answers into what `guarded` classifies -/
+
+/-- `exists` / `template_exists` (HEAD): 2xx and 404 are answers, **every other status is raised** — so 429/502/503/504
+    reach `guarded` as retryable API errors, 401/403 as authentication / authorization errors, 500 as an API error -/
+theorem head_status_rule (s : Nat) (ignore : List Nat) (hi : ignore = []) :
+    statusRaises true s ignore = false ↔ (s = 404 ∨ (200 ≤ s ∧ s < 299)) := by
+  subst hi
+  by_cases h404 : s = 404
+  · simp [statusRaises, h404]
+  · simp [statusRaises, h404]
+
+theorem head_transient_status_raises (s : Nat) (h : IsRetryableStatus s) : statusRaises true s [] = true := by
+  rcases h with h | h | h | h <;> subst h <;> decide
+
+/-- a status the caller asked to ignore (404 for `delete`, 400 for `create_index`) is a normal response -/
+theorem ignored_status_is_a_response (head : Bool) (s : Nat) (ignore : List Nat) (h : s ∈ ignore) :
+    statusRaises head s ignore = false := by
+  simp [statusRaises, h]
+
+/-- the product check comes first and the request itself is the last exchange of a call: nothing is exchanged after it -/
+theorem request_is_the_last_exchange (verified head : Bool) (ignore : List Nat) (info target : Reply) :
+    (clientCall verified head ignore info target).1 = [.target] ∨
+    (clientCall verified head ignore info target).1 = [.info, .target] ∨
+    (clientCall verified head ignore info target).1 = [.info] := by
+  unfold clientCall
+  cases verified
+  · cases info with
+    | status s => by_cases h : (decide (200 ≤ s) && decide (s < 299)) = true <;> simp [h]
+    | connError => simp
+    | connTimeout => simp
+  · simp
+
+/-- … hence a request the cluster acknowledged (2xx) always ends the call successfully: no later exchange can turn
+    an acknowledged write into a failed call that `guarded` would repeat -/
+theorem acknowledged_request_succeeds (verified head : Bool) (ignore : List Nat) (info : Reply) (s : Nat)
+    (hs : 200 ≤ s ∧ s < 299) (hsent : Exchange.target ∈ (clientCall verified head ignore info (.status s)).1) :
+    (clientCall verified head ignore info (.status s)).2 = .response s := by
+  have hr : statusRaises head s ignore = false := by
+    simp [statusRaises]; omega
+  unfold clientCall at hsent ⊢
+  cases verified
+  · cases info with
+    | status t =>
+      by_cases h : (decide (200 ≤ t) && decide (t < 299)) = true
+      · simp [h, sendTarget, hr]
+      · simp [h] at hsent
+    | connError => simp at hsent
+    | connTimeout => simp at hsent
+  · simp [sendTarget, hr]
+
 /-! ### every store operation is routed through `guarded`; constants as stated (generated table) -/
 
 /-- a method is guarded when it hands its client call to `guarded` itself, or delegates to a method that does,
